@@ -1,4 +1,5 @@
 import MxV.Model.MsimpleTheory
+import MxV.Props.C04
 /-! # C19 — misuse is reported with the documented exception types, silently otherwise
 Model side: on `Tame` templates every rejection of an operation without an explicit `forward`
 index is one of the documented kinds (and since the repair `fix: add_child(child, forward=i) with an
@@ -55,7 +56,47 @@ theorem errors_documented_flat_fwd (p : Particle) (hf : isFlat p = true) (k : Ki
   split at h
   · cases h; trivial
   · split at h <;> cases h; trivial
+
+/-! ## attribute misuse (model `Element.setAttr`; its tie to the code — exception enum included — is
+the element-engine correspondence of the C04 / C15 checks, which this check's obligations share) -/
+section Attr
+open Element Values
+
+/-- attribute misuse: the kind of error is determined by *why* the assignment is refused — an
+undeclared name gives the wrong-attribute error (XSDWrongAttribute / AttributeError), a declared name
+with a refused value gives exactly the validator's TypeError / ValueError; the internal KeyError is
+never produced — for every table, validator, store, key and value -/
+theorem attr_errors_documented (validate : Nat → PyVal → Res) (t : Tbl) (s : Store) (key : String) (v : PyVal)
+    (e : AErr) (h : setAttr validate t s key v = .error e) :
+    (e = .wrongAttribute ∧ tblFind t (normKey key) = Option.none) ∨
+    (∃ ty rq, tblFind t (normKey key) = some (ty, rq) ∧
+      ((e = .typeError ∧ validate ty v = .typeError) ∨ (e = .valueError ∧ validate ty v = .valueError))) := by
+  by_cases hv : v = .none
+  · subst hv; simp [setAttr] at h
+  · rw [C04.setAttr_eq validate t s key v hv] at h
+    cases hf : tblFind t (normKey key) with
+    | none => simp only [hf] at h; cases h; exact .inl ⟨rfl, rfl⟩
+    | some tr =>
+      obtain ⟨ty, rq⟩ := tr
+      simp only [hf] at h
+      refine .inr ⟨ty, rq, rfl, ?_⟩
+      cases hr : validate ty v with
+      | ok => simp only [hr] at h; cases h
+      | typeError => simp only [hr] at h; cases h; exact .inl ⟨rfl, rfl⟩
+      | valueError => simp only [hr] at h; cases h; exact .inr ⟨rfl, rfl⟩
+
+/-- removing (assigning None) is never an error, declared or not -/
+theorem attr_remove_silent (validate : Nat → PyVal → Res) (t : Tbl) (s : Store) (key : String) :
+    ∃ s', setAttr validate t s key .none = .ok s' := ⟨_, rfl⟩
+
+example : (match setAttr (fun _ _ => .typeError) [("font-size", 7, false)] [] "font_size" (.int 1) with
+      | .error .typeError => true | _ => false) = true ∧
+    (match setAttr (fun _ _ => .ok) [("font-size", 7, false)] [] "colour" (.int 1) with
+      | .error .wrongAttribute => true | _ => false) = true := by decide
+end Attr
 end C19
 
 #print axioms C19.errors_documented_tame
 #print axioms C19.errors_documented_flat_fwd
+#print axioms C19.attr_errors_documented
+#print axioms C19.attr_remove_silent
